@@ -531,3 +531,65 @@ def check_c06_exact(case: Any, item: Any, res: Any) -> None:  # pylint: disable=
         elif not ti <= hi_i:
             res.violation("C06.exact.index-extra", item, block=tb.entry_instr.line, expected=sorted(hi_i), actual=sorted(ti),
                           multi_context=rb in multi)
+
+
+def fee_values(prog: Any) -> List[int]:
+    return list(prog.uint_reps((272000,)))
+
+
+def addr_values(prog: Any, field: str) -> List[str]:
+    return [v[1] for v in prog.addr_reps(field)]
+
+
+def check_c09_abstract(case: Any, item: Any, res: Any, single_atom: bool) -> None:
+    """Credit clause and single-direct-check exactness of the fee bound (O2)."""
+    g = case.g
+    solver = Solver(g)
+    multi = solver.multi_context_blocks()
+    dim = UintFieldDim("Fee", fee_values(case.prog))
+    ex, ci, _ = solver.exact_sets(dim)
+    res.count("o2_states", solver.states)
+    res.count("o2_transitions", solver.transitions)
+    for rb, tb in _tealer_blocks(case):
+        if rb not in ex:
+            continue
+        ctx = case.ctx(tb)
+        res.count("o2_block_checks")
+        lo = ex[rb]
+        credited = ctx.max_fee_unknown or ctx.max_fee <= 272000
+        if credited and any(v > 272000 for v in lo):
+            res.violation("C09.credit-without-constraint", item, block=tb.entry_instr.line, max_fee=ctx.max_fee,
+                          unknown=ctx.max_fee_unknown, admitted=sorted(lo)[-3:])
+        if not ctx.max_fee_unknown and lo and max(lo) > ctx.max_fee:
+            res.violation("C09.abstract-bound-too-low", item, block=tb.entry_instr.line, max_fee=ctx.max_fee, admitted_max=max(lo))
+        if single_atom and lo and rb not in multi and not ctx.max_fee_unknown:
+            if ctx.max_fee != max(lo):
+                res.violation("C09.single-check-not-exact", item, block=tb.entry_instr.line, expected=max(lo), actual=ctx.max_fee)
+            res.count("single_check_exact_blocks")
+
+
+def check_c08_converse(case: Any, item: Any, res: Any, field: str, attr: str) -> None:
+    g = case.g
+    solver = Solver(g)
+    multi = solver.multi_context_blocks()
+    dim = AddrFieldDim(field, addr_values(case.prog, field))
+    ex, ci, _ = solver.exact_sets(dim)
+    res.count("o2_states", solver.states)
+    res.count("o2_transitions", solver.transitions)
+    for rb, tb in _tealer_blocks(case):
+        if rb not in ex:
+            continue
+        av = getattr(case.ctx(tb), attr)
+        res.count("o2_block_checks")
+        hi = ci[rb] if rb in multi else ex[rb]
+        if "ADDR:ATTACKER" not in hi and av.any_addr:
+            res.violation("C08.any-address-although-excluded", item, block=tb.entry_instr.line, field=field,
+                          admitted=sorted(hi), multi_context=rb in multi)
+        # abstract soundness: every admitted non-zero address must be admitted by tealer
+        for v in ex[rb]:
+            if v == "ADDR:ZERO":
+                continue
+            from mc.sem import addr_admits  # pylint: disable=import-outside-toplevel
+            if not addr_admits(av, ("b", v)):
+                res.violation("C08.abstract-address-not-admitted", item, block=tb.entry_instr.line, field=field, value=v,
+                              listed=list(av.possible_addr), any_addr=av.any_addr)
